@@ -694,6 +694,10 @@ func equationOf(f Frag) *jp.Equation {
 		}
 	}
 	switch op {
+	case "nes":
+		return jp.Neq(jp.Get(jp.A()), ce)
+	case "nek":
+		return jp.Neq(jp.Get(jp.A().C(key)), ce)
 	case "eqnull":
 		return jp.Eq(jp.Get(jp.A().C(key)), jp.ConstNil())
 	case "nenull":
